@@ -75,6 +75,15 @@ Proof.
   destruct (n <=? ca) eqn:C; [reflexivity|]. rewrite T. reflexivity.
 Qed.
 
+Theorem tie_check_work n :
+  run (g_check E (g_work_available E) n) s =
+  Some (if n <=? ca then true else n <=? dist len ix succ, if n <=? ca then s else mkL ix (dist len ix succ), []).
+Proof.
+  pose proof tie_work_available as T. unfold run in T.
+  unfold g_check, run, bind, get_cached, orelse, geb, ret. cbn [l_cached].
+  destruct (n <=? ca) eqn:C; [reflexivity|]. rewrite T. reflexivity.
+Qed.
+
 Theorem tie_reset : run (g_cons_reset E) s = Some (tt, mkL succ 0, [succ]) /\ run (g_work_reset E) s = Some (tt, mkL succ 0, [succ]).
 Proof. split; reflexivity. Qed.
 
